@@ -68,8 +68,12 @@ Definition durations_in_range (r : ra) : bool :=
                           | OPref64 _ _ _ t => (0 <=? t) && (t <=? 65528 * sec) && (t mod (8 * sec) =? 0)
                           | _ => true end) (ra_opts r).
 
+(* the hardware address of the interface is part of the system state the property quantifies over ("forall system
+   states for which RA generation succeeds"): an address that is not 6 bytes long (InfiniBand: 20, IEEE 1394 / EUI-64: 8)
+   is NOT excluded here -- see known class 3 *)
+Definition sys_no_mac (s : sys) : sys := mkSys (s_addrs s) (s_routes s) None (s_now s) (s_epoch s) (s_fwd s).
 Definition in_quantifier (c : case) : bool :=
-  sizes_ok (c_iface c) && sys_wfb (c_sys c) && clock_okb (c_iface c) (c_sys c).
+  sizes_ok (c_iface c) && sys_wfb (sys_no_mac (c_sys c)) && clock_okb (c_iface c) (c_sys c).
 
 Definition holds_with (secs : Z -> Z) (c : case) : bool :=
   cfg_ok (c_iface c) &&
@@ -90,11 +94,20 @@ Definition holds : case -> bool := holds_with floor_secs.
    1 float_seconds_roundup: some lifetime of the RA is >= 2^24 s with a fraction the binary64 conversion
      rounds up, and with that rounding allowed everything else holds;
    2 option_over_248_bytes: some option is longer than 31 units, the encoder refused the RA, and the
-     configuration is otherwise fine. *)
+     configuration is otherwise fine;
+   3 lla_not_6_bytes: the interface's hardware address is not 6 bytes long, the RA carries it as source link-layer
+     address, the encoder refused the RA, and without that option the RA encodes. *)
 Definition known (c : case) : N :=
   match c_built c with
   | Ok r =>
-    if ra_oversize r && negb (c_marshal_ok c) && cfg_ok (c_iface c) && durations_in_range r
+    if match s_mac (c_sys c) with Some mac => negb (Nat.eqb (length mac) 6) | None => false end
+            && existsb (fun o => match o with OSLLA _ => true | _ => false end) (ra_opts r)
+            && negb (c_marshal_ok c) && cfg_ok (c_iface c) && durations_in_range r
+            && is_ok (encode (mkRA (ra_hop r) (ra_managed r) (ra_other r) (ra_pref r) (ra_lifetime r)
+                                   (ra_reachable r) (ra_retrans r)
+                                   (filter (fun o => match o with OSLLA _ => false | _ => negb (248 <? opt_wire_len o)%N end) (ra_opts r))))
+    then 3%N (* (possibly together with class 2: both options are dropped before the encoder is asked again) *)
+    else if ra_oversize r && negb (c_marshal_ok c) && cfg_ok (c_iface c) && durations_in_range r
        && is_ok (encode (mkRA (ra_hop r) (ra_managed r) (ra_other r) (ra_pref r) (ra_lifetime r)
                               (ra_reachable r) (ra_retrans r)
                               (filter (fun o => negb (248 <? opt_wire_len o)%N) (ra_opts r))))
